@@ -507,3 +507,14 @@ pub fn hdr_complete_or_padding(w: u16) -> Option<(usize, PktType, LabelType)> {
     kani::assume(w & 0xC000 == 0xC000);
     Some(((w & 0x0FFF) as usize, PktType::CompletePkt, lt_bits(w)))
 }
+
+/// First-or-end header stub for the bounded end-to-end member of C02 (two decap calls):
+/// first fragments with a 3-byte label, end fragments with label type 11.
+pub fn hdr_first3b_or_end(w: u16) -> Option<(usize, PktType, LabelType)> {
+    if w & 0x8000 != 0 {
+        kani::assume(w & 0xF000 == 0x9000);
+        return Some(((w & 0x0FFF) as usize, PktType::FirstFragPkt, LabelType::ThreeBytesLabel));
+    }
+    kani::assume(w & 0xF000 == 0x7000);
+    Some(((w & 0x0FFF) as usize, PktType::EndFragPkt, LabelType::ReUse))
+}
